@@ -127,7 +127,10 @@ class CFG:
             h.type is None or (isinstance(h.type, ast.Name) and h.type.id in ("Exception", "BaseException"))
             for h in st.handlers
         )
-        outer = [fin_entry] if fin_entry is not None else list(handlers)
+        # exceptional entry into `finally` leaves exceptionally again: such paths never reach the normal
+        # EXIT, so they are routed straight to the outer handlers (the finally statements stay on every
+        # normal/return path, which is what the "on every normal exit" rules ask about)
+        outer = list(handlers)
         body_handlers = h_targets + ([] if catches_all else outer)
         if not h_targets:
             body_handlers = outer
@@ -146,8 +149,6 @@ class CFG:
         # finally can be entered exceptionally or by return: leave towards those too
         has_return = any(isinstance(n, ast.Return) for b in (st.body, st.orelse, *[h.body for h in st.handlers]) for s in b for n in ast.walk(s))
         for e in fin_end:
-            for h in handlers:
-                self._edge(e, h)
             if has_return:
                 self._edge(e, finals[-1] if finals else EXIT)
         return fin_end
